@@ -3,6 +3,8 @@ import Mkdb.Proofs.SpecRefineB
 import Mkdb.Proofs.SessionInv9
 import Mkdb.Proofs.TypedTables7
 import Mkdb.Proofs.SessionSelect1
+import Mkdb.Proofs.CatalogTables4
+import Mkdb.Proofs.CatalogTables5
 /-!
 # C18 — no statement can crash the engine (SELECT evaluation)
 
@@ -593,5 +595,286 @@ example : ∃ s1 w, exec sessT (.insert tname [] [[.int 5], [.int 6]]) = (s1, .o
 executor's error value (computed by the model) -/
 example : (exec sessT (.select { list := [⟨.star, []⟩], from_ := some (.table ⟨[117], none⟩) })).2.isErr
     "tableNotExist" = true := by decide +kernel
+
+end Mkdb.Session
+
+/-! ## SELECT on the two CATALOG tables: `UserTables` is gone
+
+The theorems above exclude a SELECT whose FROM clause names `sys_pages` or `sys_schema` (`UserTables`): the
+invariant `DbInv` does not say what `sys_schema` lists for the two catalog tables themselves, nor what the
+page table's row about itself names.  `CatSelf pt sch` (Proofs/CatalogTables1) says it: the page table holds
+the row `(sys_pages, leftmost leaf of the page table)`, and the columns `sys_schema` lists for `sys_pages`
+and for `sys_schema` are `pageTableSchema` / `schemaTableSchema` - the rows `CREATE DATABASE` wrote
+(`C01_catalog_describes_itself`).  It holds after `CREATE DATABASE`, every statement keeps it, so it holds
+in every database of every reachable session, and with it no SELECT - over any tables - panics.
+Proofs: `Mkdb/Proofs/CatalogTables1.lean` … `CatalogTables4.lean`. -/
+
+namespace Mkdb.Store
+open Mkdb.Tree Mkdb.Page Mkdb.Tuple Mkdb.Generated Mkdb.Exec Mkdb.Exec.TypedP Mkdb.Sql
+
+/-- **C18.catalog_tables_are_read_as_stored**.  For a database that satisfies `DbInv` and whose catalog
+describes itself (`CatSelf pt sch`), `RelationService.Fetch` of `sys_pages` and of `sys_schema` returns
+`.ok` - no error value, no panic, no unmodelled path, no exhausted fuel: what a SELECT reads
+(`fetchOf db`) is, for `sys_pages`, the columns `table_name`, `file_offset` and one row per live row of the
+page table (`rowsOf`: every one decodes with `pageTableSchema`, a consequence of `Cat`); for `sys_schema`
+the columns `table_name`, `field_name`, `field_type`, `field_length` and one row per live row of
+`sys_schema` (every one decodes with `schemaTableSchema`).  For `sys_pages` the scan starts at the page
+the page table's row about itself names: the leftmost LEAF of the page table (`firstLeafOff pt`), which is
+its root only until the page table splits (`C18_select_on_a_split_page_table`) - the scan walks the
+sibling chain from there and still sees every row (`scan_first`). -/
+theorem C18_catalog_tables_are_read_as_stored (db : Engine.DB) (sdb : Spec.SDB) (pt sch : Levels)
+    (tbls : List (Bytes × Levels)) (h : DbInv db sdb pt sch tbls) (hs : CatSelf pt sch) :
+    fetchOf db sysPages = some ⟨pageTableSchema.map fun fd => fd.name.toUTF8.toList,
+      (rowsOf pageTableSchema (live pt)).map (·.2)⟩ ∧
+    fetchOf db sysSchema = some ⟨schemaTableSchema.map fun fd => fd.name.toUTF8.toList,
+      (rowsOf schemaTableSchema (live sch)).map (·.2)⟩ ∧
+    (rowsOf pageTableSchema (live pt)).length = (live pt).length ∧
+    (rowsOf schemaTableSchema (live sch)).length = (live sch).length := by
+  obtain ⟨_, habs, _⟩ := h.abs
+  obtain ⟨h1, h2⟩ := fetchOf_catalog habs.cat hs
+  refine ⟨h1, h2, ?_, ?_⟩
+  · have := congrArg List.length (rowsOf_keys pageTableSchema (live pt)
+      (fun c hc => ptEntry_decodes (habs.cat.dec c hc)))
+    simpa using this
+  · have := congrArg List.length (rowsOf_keys schemaTableSchema (live sch) (schemaOf_rows_decode hs.schS))
+    simpa using this
+
+/-- non-vacuity: the computed database `CREATE DATABASE; CREATE TABLE t (a INT)` satisfies both hypotheses;
+its page table has three live rows, its `sys_schema` seven -/
+example : DbInv tableDB sdbA0 ptT schT [(tname, tT)] ∧ CatSelf ptT schT ∧
+    (live ptT).length = 3 ∧ (live schT).length = 7 :=
+  ⟨dbFlushed_tableDB.inv, catSelf_tableDB, by decide +kernel, by decide +kernel⟩
+
+/-- **C18.every_statement_keeps_the_catalog_self_description** (what makes the next theorem hold in every
+reachable database).  The database `CREATE DATABASE` leaves satisfies `CatSelf` (with `DbInv`), and from a
+database that satisfies `DbInv` and `CatSelf` every CREATE TABLE / INSERT / UPDATE / DELETE the parser can
+produce (side conditions exactly those of `C18_every_statement_keeps_the_database_invariant`) returns `.ok`
+or `.err` with a database that satisfies `DbInv` for some plain database and some catalog description, and
+that description satisfies `CatSelf` again.  Why: statements do not address the catalog tables by name
+(`StmtNames`), so the page table changes only by `insertPageTable` (CREATE TABLE: a new row at the end; if
+that splits the leftmost leaf its left half keeps the offset - `firstLeafOff_insertAppend`) and by
+re-pointings of the rows of OTHER names (`updatePageTable` of a user table or of `sys_schema`: same leaves,
+same offsets); and `sys_schema` changes only by `insertSchemaRows` (CREATE TABLE: rows under the NEW
+table's name - `createTable_cat_core`). -/
+theorem C18_every_statement_keeps_the_catalog_self_description :
+    (DbInv newDB [] ptNew schNew [] ∧ CatSelf ptNew schNew) ∧
+    ∀ (db : Engine.DB) (order : List Nat) (sdb : Spec.SDB) (pt sch : Levels) (tbls : List (Bytes × Levels)),
+      DbInv db sdb pt sch tbls → CatSelf pt sch → ∀ st : Sql.Stmt,
+      StmtNames pt tbls st → StmtRoomT db pt sch tbls st → StmtLits st →
+      ∃ db', (evalStmt db order st = .ok () db' ∨ ∃ e, evalStmt db order st = .err e db') ∧
+        ∃ sdb' pt' sch' tbls', DbInv db' sdb' pt' sch' tbls' ∧ CatSelf pt' sch' :=
+  ⟨⟨(ckpt_newDB.dbFlushed noStale_new).inv, catSelf_new⟩,
+    fun db order sdb pt sch tbls h hs st hn hr hl => evalStmt_keeps_inv_self db order sdb pt sch tbls h hs st hn hr hl⟩
+
+/-- non-vacuity of the step: `CREATE TABLE t (a INT)` on the new database meets the side conditions -/
+example : StmtNames ptNew [] (.createTable tname acols) ∧
+    StmtRoomT newDB ptNew schNew [] (.createTable tname acols) ∧ StmtLits (.createTable tname acols) :=
+  ⟨fun h => absurd h tname_ne_sys.1,
+    ⟨room_create_t.2.2.1, room_create_t.2.2.2.1, room_create_t.2.2.2.2.1, room_create_t.2.2.2.2.2.1,
+      room_create_t.2.2.2.2.2.2⟩, trivial⟩
+
+/-- **C18.select_on_catalog_tables_never_panics** - `C18_select_on_stored_tables_never_panics` WITHOUT
+`UserTables`, and `C18_select_on_any_table_never_panics` with the unproved check `catalogOK db` replaced
+by the invariant `CatSelf`.  For every database that satisfies `DbInv` and `CatSelf` (every database of
+every reachable session does: `C18_session_never_crashes_any_table`) and every SELECT whose select list has
+a shape the parser builds (`hq`; `C18_parsed_select_has_the_shape`) - ANY FROM clause: user tables,
+`sys_pages`, `sys_schema`, unknown names, joins of them: `Fetch` of every table read returns rows or an
+error value (`FetchTotal`: no panic, no unmodelled path, fuel not exhausted - `Fetch` of `sys_pages` scans
+from the leftmost leaf of the page table), `evaluateSelect (fetchOf db) q` is `.ok` or `.err` - NEVER
+`.panic`, the sort comparator included: the rows of the catalog tables are typed by `pageTableSchema` /
+`schemaTableSchema`, whose column names are distinct -, and every column of the rows returned holds values
+of one kind or NULL. -/
+theorem C18_select_on_catalog_tables_never_panics (db : Engine.DB) (sdb : Spec.SDB) (pt sch : Levels)
+    (tbls : List (Bytes × Levels)) (h : DbInv db sdb pt sch tbls) (hs : CatSelf pt sch) (q : Select)
+    (hq : (∃ a, q.list = [⟨.star, a⟩]) ∨ isStar q.list = false) :
+    (∀ n ∈ selectNames q, FetchTotal db n) ∧ (∀ s, evaluateSelect (fetchOf db) q ≠ .panic s) ∧
+    ∀ rows hdr, evaluateSelect (fetchOf db) q = .ok (rows, hdr) → ∃ ks : List Kind, ∀ r ∈ rows, rowHas ks r = true :=
+  select_never_panics_self h.abs hs q hq
+
+/-- non-vacuity (deliverable 4) on the computed database `tableDB`: the hypotheses hold; `SELECT * FROM
+sys_schema ORDER BY field_type`, `SELECT * FROM sys_pages p JOIN sys_schema s ON p.table_name = s.table_name
+ORDER BY s.field_name` and `SELECT * FROM sys_pages` have the parser shape, do NOT meet `UserTables`, and
+evaluate (computed by the kernel) to 7 rows × 4 columns, 7 × 6, 3 × 2 -/
+example : DbInv tableDB sdbA0 ptT schT [(tname, tT)] ∧ CatSelf ptT schT ∧
+    ((∃ a, exCatalogQuery.list = [⟨.star, a⟩]) ∨ isStar exCatalogQuery.list = false) ∧
+    ((∃ a, exCatalogJoin.list = [⟨.star, a⟩]) ∨ isStar exCatalogJoin.list = false) ∧
+    ((∃ a, exPagesQuery.list = [⟨.star, a⟩]) ∨ isStar exPagesQuery.list = false) ∧
+    ¬ UserTables exCatalogQuery ∧ ¬ UserTables exCatalogJoin ∧ ¬ UserTables exPagesQuery ∧
+    selectSize (evaluateSelect (fetchOf tableDB) exCatalogQuery) = some (7, 4) ∧
+    selectSize (evaluateSelect (fetchOf tableDB) exCatalogJoin) = some (7, 6) ∧
+    selectSize (evaluateSelect (fetchOf tableDB) exPagesQuery) = some (3, 2) :=
+  ⟨dbFlushed_tableDB.inv, catSelf_tableDB, exCatalog_shapes.1, exCatalog_shapes.2.1, exCatalog_shapes.2.2.1,
+    exCatalog_shapes.2.2.2.1, exCatalog_shapes.2.2.2.2.1, exCatalog_shapes.2.2.2.2.2,
+    exCatalog_on_tableDB.1, exCatalog_on_tableDB.2.1, exCatalog_on_tableDB.2.2⟩
+
+/-- **C18.select_on_a_split_page_table** (the case one might expect to fail: after the page table has
+split, `SELECT * FROM sys_pages` reads the page table through its STALE self-row).  `db8` is the database
+the model computes for `CREATE DATABASE; CREATE TABLE t1 (a INT); …; CREATE TABLE t8 (a INT)`: the header
+locates the page table's root at page 53248, its row about itself still reads `(sys_pages, 4096)`
+(`PtSelfFree4.db8_stale`; cf. `C02_side_conditions_hold_in_every_reachable_database`).  The catalog of `db8`
+describes itself all the same (`SelfOK db8`: `CatSelf` under whatever catalog description the store has -
+page 4096 is the leftmost leaf), so no SELECT of a parser-produced shape panics on it, and `SELECT * FROM
+sys_pages` returns (computed by the kernel) all ten rows, the join with `sys_schema` its fourteen.  No
+panic of a catalog SELECT was found in the model: the Go code's `Fetch("sys_pages")` starts `scanRight` at
+the old root, which `split` keeps as the leftmost leaf. -/
+theorem C18_select_on_a_split_page_table :
+    db8.store.hdr.ptRoot = 53248 ∧ SelfOK db8 ∧
+    (∀ sdb pt sch tbls, DbInv db8 sdb pt sch tbls → (sysPages, 4096) ∈ ptEntries pt → ∀ q : Select,
+      ((∃ a, q.list = [⟨.star, a⟩]) ∨ isStar q.list = false) → ∀ s, evaluateSelect (fetchOf db8) q ≠ .panic s) ∧
+    selectSize (evaluateSelect (fetchOf db8) exPagesQuery) = some (10, 2) ∧
+    selectSize (evaluateSelect (fetchOf db8) exCatalogJoin) = some (14, 6) :=
+  ⟨db8_ptRoot, selfOK_db8,
+    fun _ _ _ _ hi _ q hq => (select_never_panics_self hi.abs (selfOK_db8.catSelf hi) q hq).2.1,
+    exPages_on_db8.1, exPages_on_db8.2⟩
+
+/-- non-vacuity of the quantified part: `db8` satisfies `DbInv` for a catalog description whose page table
+holds the stale row -/
+example : ∃ sdb pt sch tbls, DbInv db8 sdb pt sch tbls ∧ (sysPages, 4096) ∈ ptEntries pt ∧ rootOff pt = 53248 := by
+  obtain ⟨sch8, pt8, tbls8, _, _, hg⟩ := eight_tables
+  exact ⟨sdb8, pt8, sch8, tbls8, (hg.ck.dbFlushed hg.ns).inv, (db8_stale hg).1, (db8_stale hg).2.1⟩
+
+/-- **C18.parsed_select_on_any_table_never_panics**: for every token list the parser accepts as a SELECT -
+over whatever tables - on every database that satisfies `DbInv` and `CatSelf`, the evaluation returns rows
+or an error value (`C18_parsed_select_on_stored_tables_never_panics` without `UserTables`). -/
+theorem C18_parsed_select_on_any_table_never_panics (db : Engine.DB) (sdb : Spec.SDB) (pt sch : Levels)
+    (tbls : List (Bytes × Levels)) (h : DbInv db sdb pt sch tbls) (hs : CatSelf pt sch) (ts : List Scan.Token)
+    (q : Select) (hp : parseTokens ts = .ok (.select q)) (s : String) :
+    evaluateSelect (fetchOf db) q ≠ .panic s :=
+  (select_never_panics_self h.abs hs q (parsed_select_shape hp)).2.1 s
+
+/-- non-vacuity: the tokens of `SELECT * FROM sys_pages;` parse to a SELECT whose FROM clause names the page
+table (the bytes of `sys_pages`: `sysPages_eq`) -/
+example : parseTokens [⟨t_SELECT, []⟩, ⟨t_ASTRSK, []⟩, ⟨t_FROM, []⟩,
+      ⟨t_IDENT, [115, 121, 115, 95, 112, 97, 103, 101, 115]⟩, ⟨t_SEMICOLON, []⟩] =
+      .ok (.select { list := [⟨.star, []⟩], from_ := some (.table ⟨[115, 121, 115, 95, 112, 97, 103, 101, 115], none⟩) }) ∧
+    sysPages = [115, 121, 115, 95, 112, 97, 103, 101, 115] :=
+  ⟨rfl, sysPages_eq⟩
+
+/-- **C18.select_after_any_history_never_panics_any_table** - `C18_select_after_any_history_never_panics`
+with `UserTables` GONE: run any list of statements from the database `CREATE DATABASE` leaves, each accepted
+by the plain model (with room) or refused before a change (`HistOK`); the run keeps `CatSelf`
+(`runHist_self`), and on the database reached a SELECT of a parser-produced shape over ANY tables never
+panics. -/
+theorem C18_select_after_any_history_never_panics_any_table (sts : List Sql.Stmt) (hok : HistOK [] sts newDB []) :
+    ∃ db', runHist [] newDB sts = some db' ∧ ∀ q : Select,
+      ((∃ a, q.list = [⟨.star, a⟩]) ∨ isStar q.list = false) →
+      (∀ n ∈ selectNames q, FetchTotal db' n) ∧ ∀ s, evaluateSelect (fetchOf db') q ≠ .panic s :=
+  history_select_never_panics_any sts hok
+
+/-- non-vacuity: `histOK_create_t` (Proofs/BaseCase1) - the history `CREATE TABLE t (a INT)` -/
+example : HistOK [] [.createTable tname acols] newDB [] := histOK_create_t
+
+end Mkdb.Store
+
+namespace Mkdb.Session
+open Mkdb.Engine Mkdb.Store Mkdb.Sql Mkdb.Exec
+
+/-- **C18.session_statement_never_crashes_any_table** - `C18_session_statement_never_crashes` with
+`UserTables` GONE.  `SessInvAny s` (Proofs/CatalogTables3) is `SessInv s` together with `SessSelf s`: every
+database of the session has a catalog that describes itself (`SelfOK`: `CatSelf` under whatever catalog
+description its store has).  From such a session EVERY statement - CREATE DATABASE, USE, SHOW DATABASES,
+SELECT, CREATE TABLE, INSERT, UPDATE, DELETE; valid or not; with or without a selected database - returns a
+result or an error value, never `Out.panic`, and leaves a session that satisfies `SessInvAny` again.
+`StmtSideAny s st` is `StmtSide s st` with the condition of a `.select q` reduced to the parser shape
+(`SelectShape`: the select list is `*` alone or has no leading `*` - discharged for every parsed statement by
+`C18_parsed_select_has_the_shape`); its FROM clause may name `sys_pages`, `sys_schema`, user tables, unknown
+names.  The conditions of the other statements are unchanged (`StmtNames`: INSERT / UPDATE / DELETE / CREATE
+TABLE do not address the two catalog tables by name; `StmtRoomT`; `StmtLits`). -/
+theorem C18_session_statement_never_crashes_any_table (s : Sess) (h : SessInvAny s) (st : Sql.Stmt)
+    (hside : StmtSideAny s st) : (exec s st).2 ≠ Out.panic ∧ SessInvAny (exec s st).1 := by
+  obtain ⟨⟨w, hw⟩, hs⟩ := h
+  obtain ⟨w', h1, hs1, h2, _⟩ := exec_sessAbs_any hw hs st hside
+  exact ⟨h2, ⟨w', h1⟩, hs1⟩
+
+/-- non-vacuity: the session whose selected database is the computed `tableDB` satisfies `SessInvAny`, and
+the join of `sys_pages` with `sys_schema` meets `StmtSideAny` in it -/
+example : SessInvAny sessT ∧ StmtSideAny sessT (.select exCatalogJoin) :=
+  ⟨sessInvAny_sessT, stmtSideAny_plain _ _ exCatalog_shapes.2.1⟩
+
+/-- **C18.session_never_crashes_any_table** - `C18_session_never_crashes` with `UserTables` GONE: run ANY
+list of statements from the empty session, going on after every error value.  If each statement meets the
+side conditions in the state it is run in (`SessOKAny`: for a SELECT only the parser shape), no step returns
+`Out.panic` and the final session satisfies `SessInvAny` - so `CatSelf` holds in every database of every
+session reachable this way.  Every history that meets `SessOK` meets `SessOKAny` (`SessOK.any`). -/
+theorem C18_session_never_crashes_any_table (sts : List Sql.Stmt) (hok : SessOKAny {} sts) :
+    (∀ o ∈ (runAll {} sts).2, o ≠ Out.panic) ∧ SessInvAny (runAll {} sts).1 := by
+  obtain ⟨hfin, hsfin, houts⟩ := runAll_sessAbs_any sts {} (fun _ => []) (sessAbs_empty _) sessSelf_empty hok
+  exact ⟨houts, hfin, hsfin⟩
+
+/-- **C18.plain_histories_never_crash_any_table** - `C18_plain_histories_never_crash` with `UserTables`
+GONE (`PlainAny`: as `Plain`, a SELECT needs only a select list of a shape the parser builds): every
+history of CREATE DATABASE, USE, SHOW DATABASES, SELECT over ANY tables, DELETE and UPDATE (on names other
+than the catalog tables) meets the side conditions from every session state, so none makes the session
+model crash. -/
+theorem C18_plain_histories_never_crash_any_table (sts : List Sql.Stmt) (h : ∀ st ∈ sts, PlainAny st) :
+    (∀ o ∈ (runAll {} sts).2, o ≠ Out.panic) ∧ SessInvAny (runAll {} sts).1 :=
+  C18_session_never_crashes_any_table sts (sessOKAny_plain sts {} h)
+
+/-- non-vacuity: CREATE DATABASE, USE, then the three catalog queries are `PlainAny`, and the session model
+answers all five statements (computed by the kernel) -/
+example : (∀ st ∈ [Stmt.createDatabase [100], .use [100], .select exCatalogQuery, .select exCatalogJoin,
+      .select exPagesQuery], PlainAny st) ∧
+    (runAll {} [.createDatabase [100], .use [100], .select exCatalogQuery, .select exCatalogJoin,
+      .select exPagesQuery]).2.map Out.isOk = [true, true, true, true, true] := by
+  refine ⟨?_, catalog_history_answered⟩
+  intro st hst
+  simp only [List.mem_cons, List.not_mem_nil, or_false] at hst
+  rcases hst with rfl | rfl | rfl | rfl | rfl
+  · exact trivial
+  · exact trivial
+  · exact exCatalog_shapes.1
+  · exact exCatalog_shapes.2.1
+  · exact exCatalog_shapes.2.2.1
+
+/-- **C18.session_select_never_panics_any_table** - `C18_session_select_never_panics` with `UserTables`
+GONE: in the session any list of statements leaves, on EVERY database of the session, every SELECT of a
+parser-produced shape over any tables reads its tables without a crash of `Fetch` and evaluates to rows or
+an error value. -/
+theorem C18_session_select_never_panics_any_table (sts : List Sql.Stmt) (hok : SessOKAny {} sts) :
+    ∀ p ∈ (runAll {} sts).1.dbs, ∀ q : Select, ((∃ a, q.list = [⟨.star, a⟩]) ∨ isStar q.list = false) →
+      (∀ n ∈ selectNames q, FetchTotal p.2 n) ∧ ∀ x, evaluateSelect (fetchOf p.2) q ≠ .panic x :=
+  sessInvAny_select_never_panics (C18_session_never_crashes_any_table sts hok).2
+
+/-- the same from any session that satisfies `SessInvAny` -/
+theorem C18_session_state_select_never_panics_any_table (s : Sess) (h : SessInvAny s) :
+    ∀ p ∈ s.dbs, ∀ q : Select, ((∃ a, q.list = [⟨.star, a⟩]) ∨ isStar q.list = false) →
+      (∀ n ∈ selectNames q, FetchTotal p.2 n) ∧ ∀ x, evaluateSelect (fetchOf p.2) q ≠ .panic x :=
+  sessInvAny_select_never_panics h
+
+/-- non-vacuity: `sessT` satisfies `SessInvAny` and holds the computed `tableDB` -/
+example : SessInvAny sessT ∧ ("d", tableDB) ∈ sessT.dbs := ⟨sessInvAny_sessT, by simp [sessT]⟩
+
+/-- **C18.session_select_any_table_is_answered_or_refused** - parts (1) and (2) of
+`C18_session_select_is_answered_or_refused` with `UserTables` GONE: in a session that satisfies
+`SessInvAny`, with a database selected, a SELECT of a parser-produced shape over ANY tables changes nothing
+and is answered (`Out.ok`) or refused with an error value of the executor - never `Out.panic`.  Parts (3)
+and (4) of that theorem compare with the evaluation on the PLAIN database, which has no catalog tables
+(there `sys_pages` is an unknown table): they stay as they are, for user tables. -/
+theorem C18_session_select_any_table_is_answered_or_refused (s : Sess) (h : SessInvAny s) (n : String)
+    (hc : s.cur = some n) (q : Select) (hq : (∃ a, q.list = [⟨.star, a⟩]) ∨ isStar q.list = false) :
+    (exec s (.select q)).1 = s ∧
+    ((exec s (.select q)).2 = Out.ok ∨ ∃ e, (exec s (.select q)).2 = Out.err (stmtErr (.exec e))) := by
+  obtain ⟨⟨w, hw⟩, hs⟩ := h
+  refine ⟨exec_select_fst s q, ?_⟩
+  cases hg : getDB s n with
+  | none =>
+    have := hw.cur n hc
+    rw [hg] at this
+    cases this
+  | some db =>
+    obtain ⟨pt, sch, tbls, hi, _⟩ := hw.dbs (n, db) (getDB_mem hg)
+    have hnp := (select_never_panics_self hi.abs ((hs _ (getDB_mem hg)).catSelf hi) q hq).2.1
+    rw [exec_select_cur hc hg]
+    cases he : evaluateSelect (fetchOf db) q with
+    | ok r => exact .inl rfl
+    | err e => exact .inr ⟨e, rfl⟩
+    | panic x => exact absurd he (hnp x)
+
+/-- non-vacuity: in `sessT` (database `d` selected) the three catalog queries are answered (computed by the
+kernel) -/
+example : SessInvAny sessT ∧ sessT.cur = some "d" ∧
+    (runAll sessT [.select exCatalogQuery, .select exCatalogJoin, .select exPagesQuery]).2.map Out.isOk =
+      [true, true, true] :=
+  ⟨sessInvAny_sessT, rfl, sessT_catalog_selects_answered⟩
 
 end Mkdb.Session
